@@ -226,7 +226,7 @@ impl Check for C08 {
     }
     fn cases(&self, tier: Tier) -> u64 {
         match tier {
-            Tier::Quick => 900 + 130 + 39,
+            Tier::Quick => 900 + 130 + 39 + 52,
             Tier::Thorough => 24000,
         }
     }
@@ -264,8 +264,13 @@ impl Check for C08 {
         }
         // second directed block (39 cases): the three validator edit classes x every setup, in zod
         // mode, in a small project that is certain to have validated fields to edit
-        let validator_tail: Option<u64> = quick_tail.filter(|j| *j >= 130).map(|j| j - 130);
-        if validator_tail.is_some() {
+        let validator_tail: Option<u64> = quick_tail.filter(|j| *j >= 130 && *j < 169).map(|j| j - 130);
+        // third directed block (52 cases): the two edit classes that only permute what an item
+        // declares (two fields of a struct, two variants of an enum) x every setup x both
+        // generators; the declaration order is the order of the generated interface / schema /
+        // union, so the edit is output-affecting although no name, type or attribute changes
+        let reorder_tail: Option<u64> = quick_tail.filter(|j| *j >= 169).map(|j| j - 169);
+        if validator_tail.is_some() || reorder_tail.is_some() {
             gp.n_types = 1;
             gp.n_cmds = 1;
             gp.n_files = 1;
@@ -295,6 +300,28 @@ impl Check for C08 {
             model.files[0].items.push(Item::Cmd(Command {
                 name: format!("submit_tail_form_{}", v),
                 params: vec![Param { name: "form".into(), ty: Ty::Named(form) }],
+                chans: vec![],
+                ret: None,
+                is_async: false,
+                short_attr: false,
+                emits: vec![],
+                is_command: true,
+            }));
+            model.files.truncate(1);
+        }
+        if let Some(t) = reorder_tail {
+            use crate::model::{Command, EnumDef, Field, Item, Param, StructDef, Ty, Variant};
+            let form = format!("OrderForm{}", t);
+            let kind = format!("OrderKind{}", t);
+            let fld = |n: &str, ty: &str| Field { name: n.into(), ty: Ty::Prim(ty.into()), public: true, rename: None, skip: false, validate: None };
+            let fields = vec![fld("title", "String"), fld("amount", "i32"), fld("urgent", "bool"), fld("note", "String")];
+            let variants = ["Pending", "Active", "Closed"].iter().map(|v| Variant { name: v.to_string(), rename: None, payload: None }).collect();
+            model.files[0].items.clear();
+            model.files[0].items.push(Item::Struct(StructDef { name: form.clone(), fields, rename_all: None, serde: true, qualified_derive: false }));
+            model.files[0].items.push(Item::Enum(EnumDef { name: kind.clone(), variants, rename_all: None }));
+            model.files[0].items.push(Item::Cmd(Command {
+                name: format!("place_order_{}", t),
+                params: vec![Param { name: "form".into(), ty: Ty::Named(form) }, Param { name: "kind".into(), ty: Ty::Named(kind) }],
                 chans: vec![],
                 ret: None,
                 is_async: false,
@@ -340,6 +367,9 @@ impl Check for C08 {
         }
         // stratify the mode: every class meets both generators
         cfg.mode = if i % 2 == 0 || validator_tail.is_some() { "zod".into() } else { "none".into() };
+        if let Some(t) = reorder_tail {
+            cfg.mode = if (t / 26) % 2 == 0 { "zod".into() } else { "none".into() };
+        }
         let mut sr = r.split("steps");
         let init_state = if quick_tail.is_some() { "current".to_string() } else { ["current", "current", "never", "other_mode"][((i / 3) % 4) as usize].to_string() };
         // all change classes in one list; the *last* change before the final run is stratified
@@ -461,6 +491,8 @@ impl Check for C08 {
                     classes[if last { b } else { a }].clone()
                 } else if let (Some(v), true) = (validator_tail, tries < 8) {
                     ("edit".to_string(), ["validator_min_zero", "validator_message", "change_validator"][((v / setups.len() as u64) % 3) as usize].to_string())
+                } else if let (Some(t), true) = (reorder_tail, tries < 8) {
+                    ("edit".to_string(), crate::edits::REORDER_CLASSES[((t / setups.len() as u64) % 2) as usize].to_string())
                 } else if let (Some(j), 0) = (quick_tail, tries) {
                     ("delete_output".to_string(), DELETABLE[((j / setups.len() as u64) % 5) as usize].to_string())
                 } else if last && tries == 0 {
